@@ -669,6 +669,26 @@ func c09Check(c *mc.Ctx, o *c09Oracle, cs c09Case) {
 			k.viol("optimality/reported-above-optimum"+inexact, "no local alignment reaches the reported score: "+got())
 		}
 	}
+	// a result stays what it was when another aligner works afterwards (same goroutine, the two sequences
+	// swapped: same sizes, so that recycled work space is fully reused)
+	if al != nil && al.NbSequences() == 2 {
+		before1, before2 := string(r1), string(r2)
+		b1, _ := al.GetSequenceById(0)
+		b2, _ := al.GetSequenceById(1)
+		if pn, msg := mc.Guard(func() {
+			a2 := align.NewPwAligner(align.NewSequence("t1", []byte(cs.S2), ""), align.NewSequence("t2", []byte(cs.S1), ""), align.ALIGN_ALGO_SW)
+			c09Configure(a2, &cs, cs.Mode == "mm")
+			a2.Alignment()
+		}); pn {
+			k.viol("panic/"+mc.PanicSite(msg), "second aligner (sequences swapped): "+msg)
+			return
+		}
+		n1, _ := al.GetSequenceById(0)
+		n2, _ := al.GetSequenceById(1)
+		if string(r1) != before1 || string(r2) != before2 || n1 != b1 || n2 != b2 {
+			k.viol("earlier-result-changed-by-later-alignment", fmt.Sprintf("rows were %q/%q; after another aligner aligned the swapped pair they read %q/%q (returned alignment %q/%q)", before1, before2, r1, r2, n1, n2))
+		}
+	}
 	kindTag := cs.Mode
 	if cs.Mode == "matrix" {
 		kindTag += "-" + kind
@@ -840,7 +860,7 @@ func init() {
 	mc.Register(&mc.Prop{
 		ID:    "C09",
 		Level: "exploration",
-		Rule: "(Free-running complement under the race detector: 8 goroutines doing this property's operations on objects of their own must get the values the same work gives alone.) Command line: goalign sw on 8 pairs (nucleotide, protein, mixed case) with every subset of --match, --mismatch, --gap-open, --gap-extend given (4 value sets): the alignment written and the log (coordinates, length, score, counts) must be those of the library aligner configured the same way (substitution matrix unless --match or --mismatch is given). " + "bounded-exhaustive enumeration of align.NewPwAligner(s1,s2,ALIGN_ALGO_SW) with SetGapOpenScore/SetGapExtendScore always set (and SetScore in match/mismatch mode), then Alignment(); all pairs of length 1..6 over {A,C} also under 3 schemes with penalties beyond the defaults (30/-30/-12/-11, 20/-20/-25/-15, 30/-10/-11/-10.5) and the 8 non-binary schemes configured in the three setter orders (open-extend-scores, extend-open-scores, scores-extend-open); " +
+		Rule: "(On every case: after the judged alignment another aligner aligns the swapped pair; the rows and the returned alignment of the first must read as before.) (Free-running complement under the race detector: 8 goroutines doing this property's operations on objects of their own must get the values the same work gives alone.) Command line: goalign sw on 8 pairs (nucleotide, protein, mixed case) with every subset of --match, --mismatch, --gap-open, --gap-extend given (4 value sets): the alignment written and the log (coordinates, length, score, counts) must be those of the library aligner configured the same way (substitution matrix unless --match or --mismatch is given). " + "bounded-exhaustive enumeration of align.NewPwAligner(s1,s2,ALIGN_ALGO_SW) with SetGapOpenScore/SetGapExtendScore always set (and SetScore in match/mismatch mode), then Alignment(); all pairs of length 1..6 over {A,C} also under 3 schemes with penalties beyond the defaults (30/-30/-12/-11, 20/-20/-25/-15, 30/-10/-11/-10.5) and the 8 non-binary schemes configured in the three setter orders (open-extend-scores, extend-open-scores, scores-extend-open); " +
 			"on every case: rows (Seq1Ali/Seq2Ali and the returned Alignment) of equal length, no all-gap column, de-gapped rows = s[start..end] (0-based inclusive; an empty alignment has end = start-1), " +
 			"matches+mismatches+gaps = Length() = row length, gap count = gap columns, match/mismatch counts = identical/different residue pairs, inputs unchanged, no error, no panic; " +
 			"when the oracle optimum is > 0: MaxScore() = score of the returned rows (gap of length k costs open+(k-1)*extend) and MaxScore() = optimum of an independent three-state Gotoh local dynamic program, " +
